@@ -485,7 +485,7 @@ pub fn models(tier: Tier, seed: u64) -> Vec<Box<dyn DynModel>> {
 }
 
 pub fn describe(tier: Tier, r: &mut Report) {
-    r.rule = "initial states = honest (group, scheme, key, message) tuples; an action replaces one component (signature / message / public key / scheme label) by one operator of the tamper alphabet, or applies a validity-preserving relative (re-randomised projective form, key-sum with signature-sum); depth 2 combines restricted operator sets on different components (contains the compensating pairs that must accept). Every state runs Signature::verify, MultiSignature::verify and PublicKeyShare::verify on the tuple and compares each decision with the reference CoreVerify. non-trivial = every state (each differs from every other in at least one operand)".into();
+    r.rule = "initial states = honest (group, scheme, key, message) tuples; an action replaces one component (signature / message / public key / scheme label) by one operator of the tamper alphabet, or applies a validity-preserving relative (re-randomised projective form, key-sum with signature-sum over the signer lists [a,b], [a,b,a], [a,a], [b,a,a] - key accumulated by the library, summed independently by the reference - and [a,b,a] against the signatures of [a,b], which must fail); depth 2 combines restricted operator sets on different components (contains the compensating pairs that must accept). Every state runs Signature::verify, MultiSignature::verify and PublicKeyShare::verify on the tuple and compares each decision with the reference CoreVerify. non-trivial = every state (each differs from every other in at least one operand)".into();
     r.deviation_bound_completed = "2".into();
     r.alphabet.insert("message_bit_flips".into(), serde_json::json!(if tier.thorough() { "every bit of every base message" } else { "every bit for len<=33; for len 257 one bit per byte plus all bits of the first and last byte" }));
     r.alphabet.insert("base".into(), serde_json::json!("2 groups x 3 schemes x 2 keys x messages of length 0, 33, 257"));
